@@ -46,18 +46,23 @@ def c18(thorough):
                                     yield x
                             s = gen() if kind == 'iter' else list(src)
                             c = iter(C) if kind == 'iter' else list(C)
-                            a, b = split(s, c)
-                            if pulled:
-                                probs.append('split pulled %r before any next()' % (pulled,))
-                            got = ([], [])
-                            its = (a, b)
-                            for w in order:
-                                try:
-                                    got[w].append(next(its[w]))
-                                except StopIteration:
-                                    pass
-                            # drain the rest of both to compare complete streams
-                            rest0, rest1 = list(a), list(b)
+                            try:
+                                a, b = split(s, c)
+                                if pulled:
+                                    probs.append('split pulled %r before any next()' % (pulled,))
+                                got = ([], [])
+                                its = (a, b)
+                                for w in order:
+                                    try:
+                                        got[w].append(next(its[w]))
+                                    except StopIteration:
+                                        pass
+                                # drain the rest of both to compare complete streams
+                                rest0, rest1 = list(a), list(b)
+                            except BaseException as e:  # noqa  (raised by the code under test: a finding)
+                                probs.append('split(%r, %r) consumed in order %r raised %r, expected %r / %r'
+                                             % (src, C, order, e, exp_t, exp_f))
+                                return probs, runs
                             if got[0] + rest0 != exp_t or got[1] + rest1 != exp_f:
                                 probs.append('split(%r, %r) order %r -> %r / %r, expected %r / %r'
                                              % (src, C, order, got[0] + rest0, got[1] + rest1, exp_t, exp_f))
@@ -91,20 +96,24 @@ def c18(thorough):
                     else:
                         ref_state['n'] += 1
                         refC.append(ref_state['n'] % 2)
-                a, b = split(iter(src), cond)
-                if calls:
-                    probs.append('callable evaluated before any next()')
-                # alternate pulls
-                ga, gb = [], []
-                while True:
-                    pa = next(a, StopIteration)
-                    pb = next(b, StopIteration)
-                    if pa is not StopIteration:
-                        ga.append(pa)
-                    if pb is not StopIteration:
-                        gb.append(pb)
-                    if pa is StopIteration and pb is StopIteration:
-                        break
+                try:
+                    a, b = split(iter(src), cond)
+                    if calls:
+                        probs.append('callable evaluated before any next()')
+                    # alternate pulls
+                    ga, gb = [], []
+                    while True:
+                        pa = next(a, StopIteration)
+                        pb = next(b, StopIteration)
+                        if pa is not StopIteration:
+                            ga.append(pa)
+                        if pb is not StopIteration:
+                            gb.append(pb)
+                        if pa is StopIteration and pb is StopIteration:
+                            break
+                except BaseException as e:  # noqa
+                    probs.append('split(%r, %s) raised %r' % (src, name, e))
+                    return probs, runs
                 runs += 1
                 et = [x for x, c in zip(src, refC) if c]
                 ef = [x for x, c in zip(src, refC) if not c]
